@@ -250,3 +250,6 @@ def run(prog: Program, rep: Report, tier: str = "quick") -> None:
     rep.floor("R9.2", 4 * nn)
     rep.floor("R9.3", nn)
     rep.floor("R9.5", nn)
+    from . import game
+
+    game.add_instances(rep, game.c09_job, [(i, tier) for i in range(nn)], "R9.9", 25 * nn)
